@@ -529,3 +529,398 @@ Proof.
   intros Hn. destruct (core_real p geno xoprob xc nm np nself r H1 H2 Hn) as (d0 & d1 & r2 & E' & Hp & _).
   rewrite E in E'. injection E' as <- <- <-. exact Hp.
 Qed.
+
+
+Lemma In_repeat_by {A} (x : A) xs : forall cs, In x (repeat_by xs cs) -> In x xs.
+Proof.
+  induction xs as [|y xs IH]; intros [|c cs] H; cbn in H; try contradiction.
+  apply in_app_or in H as [H|H]; [left; now apply repeat_spec in H | right; eapply IH; eauto].
+Qed.
+Lemma who_bound xc nm np : Forall (fun i => (i < length xc)%nat) (who xc nm np).
+Proof. apply Forall_forall. intros i Hi. apply In_repeat_by in Hi. apply in_seq in Hi. lia. Qed.
+
+(** an output entry is fine when its family label names a cross row i and the genotype realises the pedigree designated by row i *)
+Definition entry_ok geno xoprob p (xc : list (list nat)) nself fc (e : entry) : Prop :=
+  exists i, (i < length xc)%nat /\ fst (fst e) = fc + Z.of_nat i /\
+            realises geno xoprob (designated p (nth i xc []) nself) (snd e).
+
+Lemma raw_entries_ok geno xoprob p xc nself fc w : Forall (fun i => (i < length xc)%nat) w ->
+  forall names c0 c1, length names = length w ->
+  pop_real geno xoprob (map (fun i => designated p (nth i xc []) nself) w) c0 c1 ->
+  Forall (entry_ok geno xoprob p xc nself fc) (zip4 (map (fun i => fc + Z.of_nat i) w) names c0 c1).
+Proof.
+  induction 1 as [|i w Hi Hw IH]; intros names c0 c1 HL Hp; cbn [map] in *.
+  - inversion Hp; subst. destruct names; constructor.
+  - inversion Hp as [|t a b ts la lb R1 R2]; subst. destruct names as [|nm names]; [discriminate|]. cbn [zip4]. constructor.
+    + exists i. cbn [fst snd]. auto.
+    + apply IH; [cbn in HL; lia | exact R2].
+Qed.
+
+Definition e0 : entry := ((0, []), ([], [])).
+Lemma nth_map_d {A B} (f : A -> B) l d j db : f d = db -> nth j (map f l) db = f (nth j l d).
+Proof. intros <-. apply map_nth. Qed.
+
+Lemma group_taxa_fields x : let s := sort_st (zip4 (p_grp x) (p_taxa x) (nth 0 (p_mat x) []) (nth 1 (p_mat x) [])) in
+  p_mat (group_taxa x) = [map (fun e : entry => fst (snd e)) s; map (fun e : entry => snd (snd e)) s] /\
+  p_taxa (group_taxa x) = map (fun e : entry => snd (fst e)) s /\ p_grp (group_taxa x) = map (fun e : entry => fst (fst e)) s.
+Proof. cbn. auto. Qed.
+
+(** ** Mendelian fidelity of the whole call *)
+Lemma mate_mosaic p geno xoprob meta xc nmating nprogeny nself pc fc draws x :
+  mate p geno xoprob meta xc nmating nprogeny nself pc fc draws = Some x -> nonneg_draws draws ->
+  forall j, (j < length (p_taxa x))%nat ->
+  exists i, (i < length xc)%nat /\ nth j (p_grp x) 0 = fc + Z.of_nat i /\
+            realises geno xoprob (designated p (nth i xc []) nself) (indiv (p_mat x) j).
+Proof.
+  intros Hm Hn j Hj. destruct (mate_Some _ _ _ _ _ _ _ _ _ _ _ _ Hm) as (nm & np & _ & _ & L1 & L2 & _ & _ & Hx).
+  cbn zeta in Hx. destruct Hx as (Xm & Xt & Xg & _).
+  destruct (mate_raw_spec p geno xoprob xc nm np nself pc fc (rng0 draws) L1 L2) as (c0 & c1 & Rm & K0 & K1 & _ & Rt & Rg & _ & _ & Rp).
+  cbn zeta in *. specialize (Rp Hn).
+  set (raw := mate_raw p geno xoprob xc nm np nself pc fc (rng0 draws)) in *.
+  destruct (group_taxa_fields raw) as (Gm & Gt & Gg). cbn zeta in Gm, Gt, Gg.
+  rewrite Rm in Gm, Gt, Gg. cbn [nth] in Gm, Gt, Gg. rewrite Rt, Rg in Gm, Gt, Gg.
+  set (s := sort_st _) in *.
+  assert (Hs : Forall (entry_ok geno xoprob p xc nself fc) s).
+  { apply sort_Forall, raw_entries_ok; [apply who_bound | unfold taxa_names; now rewrite map_length, seq_length | exact Rp]. }
+  rewrite Xt, Gt, map_length in Hj. rewrite Xm, Xg, Gm, Gg.
+  rewrite Forall_forall in Hs. specialize (Hs (nth j s e0) (nth_In _ _ Hj)). destruct Hs as (i & Hi & Hl & Hr).
+  exists i. split; [exact Hi|]. split.
+  - now rewrite (nth_map_d _ s e0) by reflexivity.
+  - unfold indiv, row. cbn [nth]. rewrite !(nth_map_d _ s e0) by reflexivity. now destruct (nth j s e0) as [[? ?] [? ?]].
+Qed.
+
+(** ** numbers, names, labels, counters *)
+Lemma mate_counts p geno xoprob meta xc nmating nprogeny nself pc fc draws x :
+  mate p geno xoprob meta xc nmating nprogeny nself pc fc draws = Some x ->
+  exists nm np, expand_count nmating (length xc) = Some nm /\ expand_count nprogeny (length xc) = Some np /\
+    let N := sumn (map2 Nat.mul nm np) in
+    ntaxa_of (p_mat x) = N /\ length (nth 1 (p_mat x) []) = N /\ length (p_taxa x) = N /\ length (p_grp x) = N /\
+    p_pc x = pc + Z.of_nat N /\ p_fc x = fc + Z.of_nat (length xc) /\
+    Permutation (combine (p_grp x) (p_taxa x))
+                (combine (map (fun i => fc + Z.of_nat i) (who xc nm np)) (taxa_names (prefix p) pc N)) /\
+    concat (map2 (fun g n => repeat g (Z.to_nat n)) (p_gname x) (p_glen x)) = p_grp x.
+Proof.
+  intros Hm. destruct (mate_Some _ _ _ _ _ _ _ _ _ _ _ _ Hm) as (nm & np & E1 & E2 & L1 & L2 & _ & _ & Hx).
+  exists nm, np. split; [exact E1|]. split; [exact E2|]. cbn zeta in Hx.
+  destruct Hx as (Xm & Xt & Xg & Xn & _ & _ & Xl & _ & Xpc & Xfc).
+  destruct (mate_raw_spec p geno xoprob xc nm np nself pc fc (rng0 draws) L1 L2) as (c0 & c1 & Rm & K0 & K1 & _ & Rt & Rg & Rpc & Rfc & _).
+  cbn zeta in *. rewrite (who_length xc nm np L1 L2) in *.
+  set (N := sumn (map2 Nat.mul nm np)) in *.
+  set (raw := mate_raw p geno xoprob xc nm np nself pc fc (rng0 draws)) in *.
+  destruct (group_taxa_fields raw) as (Gm & Gt & Gg). cbn zeta in Gm, Gt, Gg.
+  rewrite Rm in Gm, Gt, Gg. cbn [nth] in Gm, Gt, Gg. rewrite Rt, Rg in Gm, Gt, Gg.
+  assert (LT : length (taxa_names (prefix p) pc N) = N) by (unfold taxa_names; now rewrite map_length, seq_length).
+  assert (LG : length (map (fun i => fc + Z.of_nat i) (who xc nm np)) = N) by (rewrite map_length; now apply who_length).
+  set (z := zip4 _ _ _ _) in *.
+  assert (LZ : length z = N) by (subst z; rewrite zip4_length; lia).
+  destruct (zip4_unzip (map (fun i => fc + Z.of_nat i) (who xc nm np)) (taxa_names (prefix p) pc N) c0 c1) as (U1 & U2 & U3 & U4); try lia.
+  fold z in U1, U2, U3, U4.
+  rewrite Xm, Xt, Xg, Xpc, Xfc, Gm, Gt, Gg. unfold ntaxa_of. cbn [nth]. rewrite !map_length, sort_length, LZ.
+  repeat split; auto.
+  - (* permutation of (label, name) pairs *)
+    rewrite <- U1, <- U2.
+    assert (C : forall l : list entry, combine (map (fun e : entry => fst (fst e)) l) (map (fun e : entry => snd (fst e)) l) = map fst l).
+    { induction l as [|[[a b] c] l IH]; cbn; [reflexivity | now rewrite IH]. }
+    rewrite !C. apply Permutation_map, sort_perm.
+  - (* group table decodes to the labels *)
+    rewrite Xn, Xl. unfold group_taxa. cbn [p_gname p_glen p_grp].
+    rewrite Rm. cbn [nth]. rewrite Rt, Rg. fold z.
+    set (u := rle _).
+    assert (D : forall v : list (Z * nat), map2 (fun g n => repeat g (Z.to_nat n)) (map fst v) (map (fun n => Z.of_nat n) (map snd v))
+                                           = map (fun gc : Z * nat => repeat (fst gc) (snd gc)) v).
+    { induction v as [|[g c] v IH]; cbn; [reflexivity|]. now rewrite Nat2Z.id, IH. }
+    rewrite D. subst u. apply rle_decode.
+Qed.
+
+(** ** doubled haploids are homozygous at every locus *)
+Lemma zip4_same c : forall g t, Forall (fun e : entry => fst (snd e) = snd (snd e)) (zip4 g t c c).
+Proof. induction c as [|a c IH]; intros [|g gs] [|t ts]; cbn [zip4]; try constructor; [reflexivity | apply IH]. Qed.
+Lemma mate_dh p geno xoprob meta xc nmating nprogeny nself pc fc draws x :
+  mate p geno xoprob meta xc nmating nprogeny nself pc fc draws = Some x -> is_dh p = true ->
+  nth 0 (p_mat x) [] = nth 1 (p_mat x) [].
+Proof.
+  intros Hm Hd. destruct (mate_Some _ _ _ _ _ _ _ _ _ _ _ _ Hm) as (nm & np & _ & _ & L1 & L2 & _ & _ & Hx).
+  cbn zeta in Hx. destruct Hx as (Xm & _).
+  destruct (mate_raw_spec p geno xoprob xc nm np nself pc fc (rng0 draws) L1 L2) as (c0 & c1 & Rm & K0 & K1 & D & Rt & Rg & _).
+  cbn zeta in *. specialize (D Hd). subst c1.
+  set (raw := mate_raw p geno xoprob xc nm np nself pc fc (rng0 draws)) in *.
+  destruct (group_taxa_fields raw) as (Gm & _). cbn zeta in Gm. rewrite Rm in Gm. cbn [nth] in Gm.
+  rewrite Xm, Gm. cbn [nth]. apply map_ext_in. intros e He.
+  set (z := zip4 _ _ _ _) in *.
+  assert (F : Forall (fun e : entry => fst (snd e) = snd (snd e)) z).
+  { subst z. apply zip4_same. }
+  apply sort_Forall in F. rewrite Forall_forall in F. now apply F.
+Qed.
+
+(** ** closure: every progeny allele sits at the same marker in a founder named in the progeny's cross row *)
+Lemma pick_len_le01 c : forall g0 g1, (length (pick g0 g1 c) <= length g0)%nat /\ (length (pick g0 g1 c) <= length g1)%nat.
+Proof. induction c as [|b t IH]; intros [|a0 t0] [|a1 t1]; cbn; try lia. specialize (IH t0 t1). lia. Qed.
+
+Lemma mosaic_src xoprob g0 g1 gam m : mosaic xoprob g0 g1 gam -> (m < length gam)%nat ->
+  (nth m gam 0 = nth m g0 0 /\ (m < length g0)%nat) \/ (nth m gam 0 = nth m g1 0 /\ (m < length g1)%nat).
+Proof.
+  intros Hm Hl. destruct (mosaic_allele xoprob g0 g1 gam m 0 Hm Hl) as [E|E]; destruct Hm as (c & _ & -> & _);
+    destruct (pick_len_le01 c g0 g1); [left | right]; split; auto; lia.
+Qed.
+
+Lemma founders_selfs k t : founders (selfs k t) = founders t.
+Proof. induction k as [|k IH]; [reflexivity|]. exact IH. Qed.
+
+Definition from_founder geno (fs : list nat) (h : list Z) : Prop :=
+  forall m, (m < length h)%nat -> exists f c, In f fs /\ (c < 2)%nat /\ nth m h 0 = nth m (row geno c f) 0.
+
+Lemma from_founder_mosaic geno xoprob fs g0 g1 gam : mosaic xoprob g0 g1 gam -> from_founder geno fs g0 -> from_founder geno fs g1 ->
+  from_founder geno fs gam.
+Proof.
+  intros Hm H0 H1 m Hl. destruct (mosaic_src _ _ _ _ m Hm Hl) as [[E L]|[E L]]; rewrite E; [apply H0 | apply H1]; exact L.
+Qed.
+Lemma from_founder_incl geno fs fs' h : incl fs fs' -> from_founder geno fs h -> from_founder geno fs' h.
+Proof. intros I H m Hl. destruct (H m Hl) as (f & c & A & B & C). exists f, c. auto. Qed.
+
+Lemma realises_closure geno xoprob t : forall ind, realises geno xoprob t ind ->
+  from_founder geno (founders t) (fst ind) /\ from_founder geno (founders t) (snd ind).
+Proof.
+  induction t as [i | f IHf m IHm | x IHx | x IHx]; intros ind H; cbn [realises founders] in *.
+  - subst ind. unfold indiv. cbn [fst snd]. split; intros m Hl; exists i; [exists 0%nat | exists 1%nat]; cbn; auto.
+  - destruct H as (fi & mi & Rf & Rm & M0 & M1). destruct (IHf _ Rf) as [F0 F1]. destruct (IHm _ Rm) as [G0 G1]. split.
+    + eapply from_founder_incl; [apply incl_appl, incl_refl|]. eapply from_founder_mosaic; eauto.
+    + eapply from_founder_incl; [apply incl_appr, incl_refl|]. eapply from_founder_mosaic; eauto.
+  - destruct H as (xi & Rx & M0 & M1). destruct (IHx _ Rx) as [F0 F1]. split; eapply from_founder_mosaic; eauto.
+  - destruct H as (xi & Rx & M0 & E). destruct (IHx _ Rx) as [F0 F1]. rewrite E. split; eapply from_founder_mosaic; eauto.
+Qed.
+
+Lemma founders_designated p r nself : length r = nparent p -> incl (founders (designated p r nself)) r.
+Proof.
+  intros HL f Hf. assert (N : forall k, (k < nparent p)%nat -> In (nth k r 0%nat) r) by (intros k Hk; apply nth_In; lia).
+  destruct p; cbn [designated founders nparent] in *; rewrite ?founders_selfs in Hf; cbn [founders app] in Hf;
+    repeat (destruct Hf as [<-|Hf]; [apply N; lia|]); contradiction.
+Qed.
+
+Lemma mate_closure p geno xoprob meta xc nmating nprogeny nself pc fc draws x :
+  mate p geno xoprob meta xc nmating nprogeny nself pc fc draws = Some x -> nonneg_draws draws ->
+  forall j, (j < length (p_taxa x))%nat ->
+  exists i, (i < length xc)%nat /\ nth j (p_grp x) 0 = fc + Z.of_nat i /\
+            from_founder geno (nth i xc []) (row (p_mat x) 0 j) /\ from_founder geno (nth i xc []) (row (p_mat x) 1 j).
+Proof.
+  intros Hm Hn j Hj. destruct (mate_mosaic _ _ _ _ _ _ _ _ _ _ _ _ Hm Hn j Hj) as (i & Hi & Hl & Hr).
+  destruct (mate_Some _ _ _ _ _ _ _ _ _ _ _ _ Hm) as (_ & _ & _ & _ & _ & _ & W & _).
+  exists i. split; [exact Hi|]. split; [exact Hl|].
+  destruct (realises_closure _ _ _ _ Hr) as [C0 C1]. unfold indiv in C0, C1. cbn [fst snd] in C0, C1.
+  rewrite Forall_forall in W. assert (WL : length (nth i xc []) = nparent p) by (apply W, nth_In, Hi).
+  split; eapply from_founder_incl; try (apply founders_designated; exact WL); eassumption.
+Qed.
+
+
+(** * names: zero-filled decimal strings compare like the numbers as long as they fit the 7 digits *)
+Fixpoint pow10 (k : nat) : Z := match k with O => 1 | S k' => 10 * pow10 k' end.
+Fixpoint fixd (w : nat) (n : Z) : list Z := match w with O => [] | S w' => fixd w' (n / 10) ++ [48 + n mod 10] end.
+
+Lemma pow10_pos k : 0 < pow10 k.
+Proof. induction k; cbn [pow10]; lia. Qed.
+Lemma pow10_mono a b : (a <= b)%nat -> pow10 a <= pow10 b.
+Proof. induction 1; [lia|]. cbn [pow10]. pose proof (pow10_pos m). lia. Qed.
+
+Lemma repeat_snoc {A} (a : A) n : repeat a n ++ [a] = a :: repeat a n.
+Proof. induction n; cbn; [reflexivity | now rewrite IHn]. Qed.
+Lemma fixd_zero w : fixd w 0 = repeat 48 w.
+Proof. induction w as [|w IH]; [reflexivity|]. cbn [fixd]. rewrite Z.div_0_l, Z.mod_0_l, IH by lia. cbn. apply repeat_snoc. Qed.
+
+Lemma digits_fuel_fixd f : forall n k w, 0 <= n < pow10 k -> (1 <= k <= w)%nat -> (k <= f)%nat ->
+  repeat 48 (w - length (digits_fuel f n)) ++ digits_fuel f n = fixd w n.
+Proof.
+  induction f as [|f IH]; intros n k w Hn Hk Hf; [lia|]. cbn [digits_fuel].
+  destruct w as [|w]; [lia|]. cbn [fixd]. destruct (Z.ltb_spec n 10) as [L|G].
+  - cbn [length]. rewrite Z.div_small, Z.mod_small, fixd_zero by lia. now replace (S w - 1)%nat with w by lia.
+  - destruct k as [|[|k]]; [lia | cbn in Hn; lia |]. cbn [pow10] in Hn.
+    assert (Hq : 0 <= n / 10 < pow10 (S k)).
+    { split; [apply Z.div_pos; lia | apply Z.div_lt_upper_bound; cbn [pow10]; lia]. }
+    specialize (IH (n / 10) (S k) w Hq ltac:(lia) ltac:(lia)).
+    rewrite app_length. cbn [length]. replace (S w - (length (digits_fuel f (n / 10)) + 1))%nat with (w - length (digits_fuel f (n / 10)))%nat by lia.
+    now rewrite app_assoc, IH.
+Qed.
+
+Lemma digits_fuel_range f : forall n, 0 <= n -> Forall (fun c => 48 <= c <= 57) (digits_fuel f n).
+Proof.
+  induction f as [|f IH]; intros n Hn; cbn [digits_fuel]; [constructor|]. destruct (Z.ltb_spec n 10).
+  - constructor; [lia | constructor].
+  - apply Forall_app. split; [apply IH, Z.div_pos; lia|]. constructor; [|constructor]. pose proof (Z.mod_pos_bound n 10). lia.
+Qed.
+
+Lemma two_le_pow10 m : 2 ^ Z.of_nat m <= pow10 m.
+Proof.
+  induction m as [|m IH]; [cbn; lia|]. rewrite Nat2Z.inj_succ, Z.pow_succ_r by lia. cbn [pow10]. pose proof (pow10_pos m). lia.
+Qed.
+
+Lemma zfill7_fixd n : 0 <= n < pow10 7 -> zfill 7 (str_Z n) = fixd 7 n.
+Proof.
+  intros Hn. unfold str_Z. destruct (Z.ltb_spec n 0); [lia|]. unfold digits.
+  set (f := S (Z.to_nat (Z.log2 n))).
+  assert (Hf : n < pow10 f).
+  { destruct (Z.eq_dec n 0) as [->|NZ]; [cbn; lia|]. eapply Z.lt_le_trans; [|apply two_le_pow10].
+    subst f. rewrite Nat2Z.inj_succ, Z2Nat.id by apply Z.log2_nonneg. apply Z.log2_spec. lia. }
+  assert (K : exists k, 0 <= n < pow10 k /\ (1 <= k <= 7)%nat /\ (k <= f)%nat).
+  { destruct (Nat.le_ge_cases f 7); [exists f | exists 7%nat]; subst f; repeat split; try lia. }
+  destruct K as (k & K1 & K2 & K3). pose proof (digits_fuel_fixd f n k 7 K1 K2 K3) as E.
+  pose proof (digits_fuel_range f n ltac:(lia)) as R. unfold zfill.
+  destruct (digits_fuel f n) as [|c t] eqn:D; [rewrite app_nil_r in E; exact E|].
+  inversion R as [|? ? Rc _]; subst. destruct (Z.eqb_spec c 45); [lia|]. destruct (Z.eqb_spec c 43); [lia|]. exact E.
+Qed.
+
+Definition lex_lt (x y : list Z) : Prop := exists p a b tx ty, x = p ++ a :: tx /\ y = p ++ b :: ty /\ a < b.
+Lemma lex_lt_leb x y : lex_lt x y -> lex_leb x y = true.
+Proof.
+  intros (p & a & b & tx & ty & -> & -> & H). induction p as [|c p IH]; cbn [app lex_leb].
+  - destruct (Z.ltb_spec a b); [reflexivity | lia].
+  - rewrite Z.ltb_irrefl. exact IH.
+Qed.
+Lemma lex_lt_app x y u v : lex_lt x y -> lex_lt (x ++ u) (y ++ v).
+Proof. intros (p & a & b & tx & ty & -> & -> & H). exists p, a, b, (tx ++ u), (ty ++ v). now rewrite <- !app_assoc. Qed.
+Lemma lex_lt_prefix q x y : lex_lt x y -> lex_lt (q ++ x) (q ++ y).
+Proof. intros (p & a & b & tx & ty & -> & -> & H). exists (q ++ p), a, b, tx, ty. now rewrite <- !app_assoc. Qed.
+
+Lemma fixd_lt w : forall a b, 0 <= a < b -> b < pow10 w -> lex_lt (fixd w a) (fixd w b).
+Proof.
+  induction w as [|w IH]; intros a b Hab Hb; [cbn in Hb; lia|]. cbn [fixd pow10] in *.
+  assert (Hd : a / 10 <= b / 10) by (apply Z.div_le_mono; lia).
+  destruct (Z.eq_dec (a / 10) (b / 10)) as [E|NE].
+  - rewrite E. exists (fixd w (b / 10)), (48 + a mod 10), (48 + b mod 10), [], []. repeat split.
+    pose proof (Z.div_mod a 10 ltac:(lia)). pose proof (Z.div_mod b 10 ltac:(lia)). lia.
+  - apply lex_lt_app, IH; [split; [apply Z.div_pos; lia | lia] | apply Z.div_lt_upper_bound; lia].
+Qed.
+
+Lemma name_lt pfx a b : 0 <= a < b -> b < pow10 7 -> lex_leb (taxon_name pfx a) (taxon_name pfx b) = true.
+Proof.
+  intros Hab Hb. unfold taxon_name. rewrite !zfill7_fixd by lia. apply lex_lt_leb, lex_lt_prefix, fixd_lt; assumption.
+Qed.
+
+(** * the raw progeny list is already sorted by (family label, name) when the names fit 7 digits *)
+Fixpoint ndec (l : list nat) : Prop :=
+  match l with x :: t => match t with y :: _ => (x <= y)%nat /\ ndec t | [] => True end | [] => True end.
+Lemma ndec_repeat_app s c rest : Forall (fun x => (s <= x)%nat) rest -> ndec rest -> ndec (repeat s c ++ rest).
+Proof.
+  intros F N. induction c as [|c IH]; [exact N|]. cbn [repeat app]. cbn [ndec].
+  destruct (repeat s c ++ rest) as [|y t] eqn:E; [exact I|]. split; [|exact IH].
+  destruct c; cbn in E; [subst rest; now inversion F | injection E as <- _; lia].
+Qed.
+Lemma repeat_by_seq_sorted n : forall s cs, ndec (repeat_by (seq s n) cs) /\ Forall (fun x => (s <= x)%nat) (repeat_by (seq s n) cs).
+Proof.
+  induction n as [|n IH]; intros s [|c cs]; cbn [seq repeat_by]; try (split; [exact I | constructor]).
+  destruct (IH (S s) cs) as [N F]. assert (F' : Forall (fun x => (s <= x)%nat) (repeat_by (seq (S s) n) cs)).
+  { eapply Forall_impl; [|exact F]. cbn. intros; lia. }
+  split; [now apply ndec_repeat_app|]. apply Forall_app. split; [|exact F'].
+  apply Forall_forall. intros x Hx. apply repeat_spec in Hx. lia.
+Qed.
+Lemma who_ndec xc nm np : ndec (who xc nm np).
+Proof. apply repeat_by_seq_sorted. Qed.
+
+Lemma taxa_names_S pfx pc n : taxa_names pfx pc (S n) = taxon_name pfx pc :: taxa_names pfx (pc + 1) n.
+Proof.
+  unfold taxa_names. cbn [seq map]. rewrite Z.add_0_r. f_equal. rewrite <- seq_shift, map_map.
+  apply map_ext. intros i. f_equal. lia.
+Qed.
+
+Lemma raw_sorted pfx fc w : ndec w -> forall pc c0 c1, 0 <= pc -> pc + Z.of_nat (length w) <= pow10 7 ->
+  is_sorted (zip4 (map (fun i => fc + Z.of_nat i) w) (taxa_names pfx pc (length w)) c0 c1) = true.
+Proof.
+  induction w as [|i w IH]; intros N pc c0 c1 H0 H1; [reflexivity|].
+  cbn [length] in *. rewrite taxa_names_S. cbn [map]. destruct c0 as [|a c0]; [reflexivity|]. destruct c1 as [|b c1]; [reflexivity|].
+  cbn [zip4]. destruct w as [|i' w']; [reflexivity|]. cbn [ndec] in N. destruct N as [Le N'].
+  specialize (IH N' (pc + 1) c0 c1 ltac:(lia) ltac:(cbn [length] in *; lia)).
+  cbn [length] in *. rewrite taxa_names_S in *. cbn [map] in *. destruct c0 as [|a' c0]; [reflexivity|]. destruct c1 as [|b' c1]; [reflexivity|].
+  cbn [zip4] in *. cbn [is_sorted]. cbn [is_sorted] in IH. rewrite IH, andb_true_r. cbn [key_leb].
+  destruct (Z.ltb_spec (fc + Z.of_nat i) (fc + Z.of_nat i')); [reflexivity|]. cbn [orb].
+  destruct (Z.eqb_spec (fc + Z.of_nat i) (fc + Z.of_nat i')); [|lia]. cbn [andb]. apply name_lt; lia.
+Qed.
+
+(** ** order: inside the 7-digit range group_taxa leaves the progeny in cross-configuration order *)
+Lemma mate_order p geno xoprob meta xc nmating nprogeny nself pc fc draws x :
+  mate p geno xoprob meta xc nmating nprogeny nself pc fc draws = Some x ->
+  exists nm np, expand_count nmating (length xc) = Some nm /\ expand_count nprogeny (length xc) = Some np /\
+    let N := sumn (map2 Nat.mul nm np) in
+    (0 <= pc -> pc + Z.of_nat N <= 10000000 ->
+     p_grp x = map (fun i => fc + Z.of_nat i) (who xc nm np) /\ p_taxa x = taxa_names (prefix p) pc N /\
+     p_mat x = fst (core p geno xoprob xc nm np nself (rng0 draws))).
+Proof.
+  intros Hm. destruct (mate_Some _ _ _ _ _ _ _ _ _ _ _ _ Hm) as (nm & np & E1 & E2 & L1 & L2 & _ & _ & Hx).
+  exists nm, np. split; [exact E1|]. split; [exact E2|]. cbn zeta in Hx. intros N H0 HN.
+  destruct Hx as (Xm & Xt & Xg & _).
+  destruct (mate_raw_spec p geno xoprob xc nm np nself pc fc (rng0 draws) L1 L2) as (c0 & c1 & Rm & K0 & K1 & _ & Rt & Rg & _).
+  cbn zeta in *. rewrite (who_length xc nm np L1 L2) in *. fold N in K0, K1, Rt.
+  set (raw := mate_raw p geno xoprob xc nm np nself pc fc (rng0 draws)) in *.
+  destruct (group_taxa_fields raw) as (Gm & Gt & Gg). cbn zeta in Gm, Gt, Gg.
+  rewrite Rm in Gm, Gt, Gg. cbn [nth] in Gm, Gt, Gg. rewrite Rt, Rg in Gm, Gt, Gg.
+  assert (LW : length (who xc nm np) = N) by now apply who_length.
+  assert (S : is_sorted (zip4 (map (fun i => fc + Z.of_nat i) (who xc nm np)) (taxa_names (prefix p) pc N) c0 c1) = true).
+  { rewrite <- LW. apply raw_sorted; [apply who_ndec | exact H0 | rewrite LW; cbn; lia]. }
+  rewrite (sort_id _ S) in Gm, Gt, Gg.
+  destruct (zip4_unzip (map (fun i => fc + Z.of_nat i) (who xc nm np)) (taxa_names (prefix p) pc N) c0 c1) as (U1 & U2 & U3 & U4);
+    try (rewrite map_length; lia); try (unfold taxa_names; rewrite !map_length, seq_length; lia).
+  rewrite Xm, Xt, Xg, Gm, Gt, Gg, U1, U2, U3, U4. repeat split.
+  unfold raw, mate_raw in Rm. destruct (core p geno xoprob xc nm np nself (rng0 draws)) as [g r']. cbn [p_mat] in Rm. cbn [fst]. now rewrite Rm.
+Qed.
+
+
+(** * sides of one mating: phase 0 is a gamete of the female selection, phase 1 of the male selection *)
+Lemma mat_mate_sides fgeno mgeno fsel msel xoprob r : nonneg_draws (pending r) ->
+  exists c0 c1, fst (mat_mate fgeno mgeno fsel msel xoprob r) = [c0; c1] /\
+    Forall2 (fun s gam => mosaic xoprob (row fgeno 0 s) (row fgeno 1 s) gam) fsel c0 /\
+    Forall2 (fun s gam => mosaic xoprob (row mgeno 0 s) (row mgeno 1 s) gam) msel c1.
+Proof.
+  intros Hn. unfold mat_mate, mat_meiosis. cbn [pending fst]. eexists _, _. split; [reflexivity|]. split; apply meiosis_rows_mosaic.
+  - apply nonneg_draws_hd, Hn.
+  - apply nonneg_draws_hd, nonneg_draws_tl, Hn.
+Qed.
+
+(** * marker metadata *)
+Lemma mate_meta p geno xoprob meta xc nmating nprogeny nself pc fc draws x :
+  mate p geno xoprob meta xc nmating nprogeny nself pc fc draws = Some x ->
+  let m := p_meta x in
+  vm_chrgrp m = vm_chrgrp meta /\ vm_phypos m = vm_phypos meta /\ vm_name m = vm_name meta /\ vm_genpos m = vm_genpos meta /\
+  vm_xoprob m = vm_xoprob meta /\ vm_hapgrp m = vm_hapgrp meta /\ vm_mask m = vm_mask meta /\
+  vm_chrgrp_name m = vm_chrgrp_name meta /\ vm_chrgrp_stix m = vm_chrgrp_stix meta /\
+  vm_chrgrp_spix m = vm_chrgrp_spix meta /\ vm_chrgrp_len m = vm_chrgrp_len meta /\
+  (vm_hapalt meta = None -> vm_hapref meta = None -> m = meta).
+Proof.
+  intros Hm. destruct (mate_Some _ _ _ _ _ _ _ _ _ _ _ _ Hm) as (nm & np & _ & _ & _ & _ & _ & _ & Hx).
+  cbn zeta in Hx. destruct Hx as (_ & _ & _ & _ & _ & _ & _ & Xmeta & _). cbn zeta. rewrite Xmeta.
+  unfold progeny_meta. cbn. repeat split. intros A B. destruct meta; cbn in *. now subst.
+Qed.
+
+Definition wit_geno : list (list (list Z)) := [[[0; 0]; [1; 1]]; [[0; 0]; [1; 1]]].
+Definition wit_xoprob : list Q := [1 # 2; 1 # 4].
+Definition wit_draws : list (list (list Q)) := [[[3 # 4; 3 # 4]; [3 # 4; 3 # 4]]; [[3 # 4; 3 # 4]; [3 # 4; 3 # 4]]].
+Definition meta_none : vmeta := mkMeta None None None None None None None None None None None None None.
+Definition wit_meta : vmeta := mkMeta None None None None None None (Some [65; 67]) (Some [71; 84]) None None None None None.
+
+(** the hap-allele arrays of the parents do not reach the progeny *)
+Lemma meta_refuted : exists p geno xoprob meta xc nm np nself pc fc draws x l,
+  mate p geno xoprob meta xc nm np nself pc fc draws = Some x /\ vm_hapalt meta = Some l /\ vm_hapalt (p_meta x) = None.
+Proof.
+  exists P2, wit_geno, wit_xoprob, wit_meta, [[0; 1]%nat], (inl 1%nat), (inl 2%nat), 0%nat, 0, 0, wit_draws.
+  eexists. exists [65; 67]. split; [vm_compute; reflexivity|]. split; reflexivity.
+Qed.
+
+(** names crossing the 7-digit width inside a family are put out of cross-configuration order by group_taxa *)
+Lemma order_refuted : exists p geno xoprob meta xc nm np nself pc fc draws x,
+  mate p geno xoprob meta xc nm np nself pc fc draws = Some x /\ 0 <= pc /\
+  p_taxa x = [taxon_name (prefix p) (pc + 1); taxon_name (prefix p) pc].
+Proof.
+  exists P2, wit_geno, wit_xoprob, meta_none, [[0; 1]%nat], (inl 1%nat), (inl 2%nat), 0%nat, 9999999, 0, wit_draws.
+  eexists. split; [vm_compute; reflexivity|]. split; [lia|]. vm_compute. reflexivity.
+Qed.
+
+(** non-vacuity: a 3-taxa, 5-marker population, a three-way DH cross with one selfing generation; the hypotheses of the
+    theorems hold, progeny are produced and a scripted crossover fires *)
+Definition ex_geno : list (list (list Z)) :=
+  [[[0; 1; 0; 1; 1]; [1; 1; 0; 0; 1]; [-1; 0; 1; 127; 0]]; [[1; 1; 1; 0; 0]; [0; 0; 0; 0; 1]; [1; -128; 0; 1; 1]]].
+Definition ex_xoprob : list Q := [1 # 2; 1 # 10; 0 # 1; 1 # 2; 1 # 4].
+Definition ex_row (k : Z) : list Q := [k # 8; 1 # 16; 0 # 1; 7 # 8; 1 # 8].
+Definition ex_draws : list (list (list Q)) :=
+  [[ex_row 1; ex_row 5]; [ex_row 7; ex_row 2]; [ex_row 3; ex_row 3]; [ex_row 6; ex_row 1]; [ex_row 2; ex_row 2]; [ex_row 5; ex_row 0];
+   [ex_row 1; ex_row 7; ex_row 4; ex_row 0]].
+Lemma ex_nonneg : nonneg_draws ex_draws.
+Proof. repeat constructor; discriminate. Qed.
+Lemma ex_runs : exists x, mate P3DH ex_geno ex_xoprob meta_none [[2; 0; 1]%nat] (inl 2%nat) (inl 2%nat) 1%nat 5 3 ex_draws = Some x /\
+  length (p_taxa x) = 4%nat /\ p_reqs x = [(2, 5); (2, 5); (2, 5); (2, 5); (2, 5); (2, 5); (4, 5)]%nat /\
+  nth 0 (p_mat x) [] <> nth 0 ex_geno [].
+Proof. eexists. split; [vm_compute; reflexivity|]. split; [reflexivity|]. split; [reflexivity|]. vm_compute. discriminate. Qed.
